@@ -19,6 +19,11 @@ import json
 import os
 
 
+def generate(ctx):
+    """setup hook: Poly/Generated/Guards.lean must exist before the Lean library is built from a clean clone."""
+    native_extract.extract(ctx, "guards", [], "Guards.lean")
+
+
 def run(ctx):
     ctx.level = "proof"
     ctx.assumptions += [
